@@ -170,6 +170,9 @@ class Ctx:
         return (st or self.st).hget(ref, field).get(st or self.st)
 
 
+RMUL = z3.Function("rmul", z3.RealSort(), z3.RealSort(), z3.RealSort())
+
+
 class Interp:
     def __init__(self, contracts, imports=None):
         self.contracts = contracts  # key -> Contract
@@ -258,6 +261,10 @@ class Interp:
         if isinstance(op, ast.Sub):
             return x - y
         if isinstance(op, ast.Mult):
+            if real and getattr(self, "options", {}).get("mul_uf") and not (z3.is_rational_value(z3.simplify(x)) or z3.is_rational_value(z3.simplify(y))):
+                # a product of two symbolic reals as an uninterpreted function: a sound abstraction for proving (valid for every
+                # interpretation of rmul, so for multiplication too); keeps the obligation out of nonlinear arithmetic
+                return RMUL(x, y)
             return x * y
         if isinstance(op, ast.Div):
             self.oblige(st, f"no_zero_division@{node.lineno}", y != 0, info={"line": node.lineno})
@@ -457,27 +464,17 @@ class Interp:
         lo, hi = norm(lo, z3.IntVal(0)), norm(hi, n)
         ln = fresh("slice.len", INT)
         st.assume(ln == z3.If(hi > lo, hi - lo, 0))
-        comps = []
         j = z3.Int("j!s")
-        for c, k in zip(seq.comps, seq.kinds):
-            nc = fresh("slice", c.sort())
-            st.assume(z3.ForAll([j], z3.Implies(z3.And(0 <= j, j < ln), z3.Select(nc, j) == z3.Select(c, j + lo))))
-            comps.append(nc)
+        # array lambdas instead of quantified axioms: selects beta-reduce, no trigger needed
+        comps = [z3.Lambda([j], z3.Select(c, j + lo)) for c in seq.comps]
         return SymSeq(comps, ln, seq.kinds, seq.tuple_elems)
 
     def seq_concat(self, a, b, st):
         if a.kinds != b.kinds:
             raise Unsupported("concat of different element kinds")
         ln = a.length + b.length
-        comps = []
         j = z3.Int("j!c")
-        for ca, cb in zip(a.comps, b.comps):
-            nc = fresh("cat", ca.sort())
-            st.assume(z3.ForAll([j], z3.Implies(z3.And(0 <= j, j < a.length), z3.Select(nc, j) == z3.Select(ca, j))))
-            st.assume(
-                z3.ForAll([j], z3.Implies(z3.And(0 <= j, j < b.length), z3.Select(nc, j + a.length) == z3.Select(cb, j)))
-            )
-            comps.append(nc)
+        comps = [z3.Lambda([j], z3.If(j < a.length, z3.Select(ca, j), z3.Select(cb, j - a.length))) for ca, cb in zip(a.comps, b.comps)]
         return SymSeq(comps, ln, a.kinds, a.tuple_elems)
 
     def seq_index(self, seq, idx, st, node, checked=True):
@@ -550,6 +547,12 @@ class Interp:
         # f-string: evaluate the holes for their obligations, value is opaque
         holes = [v.value for v in node.values if isinstance(v, ast.FormattedValue)]
         for st1, vs in self.ev_list(holes, st):
+            if vs is not RAISE and getattr(self, "options", {}).get("fstring_uf") and vs and all(isinstance(v, SStr) or (z3.is_expr(v) and v.sort() == INT) for v in vs):
+                # an f-string is a function of its holes: one uninterpreted function per source position (option fstring_uf)
+                ts = [v.term if isinstance(v, SStr) else v for v in vs]
+                fn = z3.Function(f"fstring@{node.lineno}:{node.col_offset}", *([INT] * len(ts)), INT)
+                yield st1, fn(*ts)
+                continue
             yield st1, (RAISE if vs is RAISE else Opaque("fstring"))
 
     def ev_UnaryOp(self, node, st):
@@ -1385,6 +1388,14 @@ class Interp:
                         st.hset(obj, "order0", v.order0)
                         return
                     raise Unsupported("System.order = <non order vector>")
+                if attr == "config" and isinstance(v, tuple) and len(v) == 2:
+                    f, i = v
+                    f = f.term if isinstance(f, SStr) else f
+                    if z3.is_expr(f) and (isinstance(i, int) or z3.is_expr(i)):
+                        st.hset(obj, "cfg_file", f)
+                        st.hset(obj, "cfg_idx", i if z3.is_expr(i) else z3.IntVal(i))
+                        return
+                    raise Unsupported("System.config = (<untracked file name>, idx)")
                 if attr in ("vpot", "ekin"):
                     if isinstance(v, OptReal):
                         st.hset(obj, attr + "_none", v.none)
